@@ -125,11 +125,12 @@ def realize(v):
 
 def decide(cond):
     """Evaluate a (possibly symbolic) condition to a concrete bool, forking if needed.
-    Usable from inside `untraced()` blocks."""
+    `cond` is a zero-argument callable so that the comparison itself is evaluated with the
+    tracer on; usable from inside `untraced()` blocks."""
     if symbolic_run() and not is_tracing():
         with _ResumedTracing():
-            return True if cond else False
-    return True if cond else False
+            return True if cond() else False
+    return True if cond() else False
 
 
 def choose(sym, n):
